@@ -748,14 +748,20 @@ where
         self.scheduler_ctx.executed(txid);
 
         if let Some(next) = next {
+            #[cfg(feature = "verif")]
+            crate::verif::event(crate::verif::Event::RewindRequest { index: txid, by_tx: txid });
             self.scheduler_ctx.rewind_validation_to(txid);
             drop(tx_state);
             return self.execution_task(next);
         }
         if conflict {
+            #[cfg(feature = "verif")]
+            crate::verif::event(crate::verif::Event::RewindRequest { index: txid + 1, by_tx: txid });
             self.scheduler_ctx.rewind_validation_to(txid + 1);
         } else {
             if write_new_locations {
+                #[cfg(feature = "verif")]
+                crate::verif::event(crate::verif::Event::RewindRequest { index: txid, by_tx: txid });
                 self.scheduler_ctx.rewind_validation_to(txid);
             } else {
                 tx_state.status = TransactionStatus::Validating;
@@ -803,6 +809,8 @@ where
         // Capture the timestamp before scanning. A concurrent later rewind then has a newer lower
         // bound and prevents this validation from reaching finality.
         let ts = self.scheduler_ctx.logical_timestamp();
+        #[cfg(feature = "verif")]
+        crate::verif::event(crate::verif::Event::ValidationStart { txid, incarnation, ts });
         #[cfg(feature = "verif")]
         crate::verif::point(crate::verif::pt::VAL_TS, txid);
         // Every read must still resolve to the same latest preceding incarnation, and that write
@@ -866,6 +874,8 @@ where
         crate::verif::point(crate::verif::pt::VAL_VERDICT, txid);
         // update transaction status
         tx_state.status = if conflict {
+            #[cfg(feature = "verif")]
+            crate::verif::event(crate::verif::Event::RewindRequest { index: txid + 1, by_tx: txid });
             self.scheduler_ctx.rewind_validation_to(txid + 1);
             TransactionStatus::Conflict
         } else {
